@@ -25,7 +25,13 @@ Inductive c07case :=
 | CHead (cfgBuf headLen : Z) (status : Z) (closed dispatched : bool)
 (* the same with the head's bytes, through the ReqHead model *)
 | CHeadModel (cfgBuf : Z) (input : bytes) (status : Z) (closed dispatched : bool)
-| CRoundUp (n r : Z).
+| CRoundUp (n r : Z)
+(* Request.ReadLimitBody (+ ContinueReadBody after Expect: 100-continue) on a multipart/form-data request with
+   Content-Length cl and cl body bytes that form a valid form; res: 0 = form pre-parsed, 1 = ErrBodyTooLarge,
+   2 = other error, 3 = plain body read (no pre-parse); seen = bytes in the form / body *)
+| CMpRead (L cl : Z) (preParse expect : bool) (res seen : Z)
+(* the same through a real Server with MaxRequestBodySize = cfgMax *)
+| CMpServer (cfgMax cl : Z) (preParse expect : bool) (status : Z) (closed dispatched : bool) (seen : Z).
 
 (* ---------------- correspondence ---------------- *)
 Definition read_fn (m : bmode) (cl L : Z) (wire : bytes) : bres :=
@@ -94,6 +100,19 @@ Definition corr_ok (c : c07case) : bool :=
   | CHeadModel cfgBuf input status closed dispatched =>
       (status =? head_status cfgBuf input) && Bool.eqb dispatched (status =? 200)
   | CRoundUp n r => roundUpForSliceCap n =? r
+  | CMpRead L cl preParse expect res seen =>
+      match continueReadBody trailer_reject preParse true (fun _ => true) cl L (rpt cl 97) with
+      | RQForm form _ => (res =? 0) && (seen =? blen form)
+      | RQBody (BOk body _ _) => (res =? 3) && (seen =? blen body)
+      | RQBody (BErr EBodyTooLarge _ _) => res =? 1
+      | _ => res =? 2
+      end
+  | CMpServer cfgMax cl preParse expect status closed dispatched seen =>
+      match serveContinueReadBody trailer_reject preParse true (fun _ => true) cfgMax cl (rpt cl 97) with
+      | SDispatch body _ => (status =? 200) && dispatched && (seen =? blen body)
+      | SAnswerClose st => (status =? st) && closed && negb dispatched
+      | SCloseSilently => false
+      end
   end.
 
 (* ---------------- the property ---------------- *)
@@ -144,4 +163,12 @@ Definition prop_ok (c : c07case) : bool :=
       let S := if cfgBuf <=? 0 then 4096 else cfgBuf in
       if blen input >? S then (status =? 431) && closed && negb dispatched else true
   | CRoundUp n r => true
+  | CMpRead L cl preParse expect res seen =>
+      if L <=? 0 then true
+      else if cl >? L then res =? 1                       (* over the limit: ErrBodyTooLarge, nothing buffered as a body *)
+      else if (res =? 0) || (res =? 3) then seen <=? L else true
+  | CMpServer cfgMax cl preParse expect status closed dispatched seen =>
+      let L := if cfgMax <=? 0 then 4 * mib else cfgMax in
+      if cl >? L then (400 <=? status) && closed && negb dispatched
+      else if dispatched then seen <=? L else true
   end.
